@@ -595,7 +595,76 @@ func (w *world) replicas() {
 	}
 }
 
+// packetReadback (C19, C13): the keeper's own iteration over the packet store (genesis export, list
+// queries) returns exactly the commitments, receipts and acknowledgements the history produced, each as
+// the (source, destination, sequence) triple it was written for.
+func (w *world) packetReadback(when string) {
+	for _, c := range w.chains {
+		if c.Halted != "" {
+			continue
+		}
+		wantC, wantR := map[string]bool{}, map[string]bool{}
+		for _, k := range sortedPktKeys(w.m.pkts) {
+			pk := w.m.pkts[k]
+			if pk.src == c.idx && pk.ackCount == 0 {
+				wantC[pk.p.Triple()] = true
+			}
+			if pk.dst == c.idx && pk.recvCount > 0 {
+				wantR[pk.p.Triple()] = true
+			}
+		}
+		if c.tssm != nil {
+			for _, p := range c.tssm.sent {
+				if !p.acked {
+					wantC[fmt.Sprintf("%s/%s/%d", c.Cfg.Name, w.tssName(), p.seq)] = true
+				}
+			}
+			var seqs []uint64
+			for s := range c.tssm.received {
+				seqs = append(seqs, s)
+			}
+			for _, s := range seqs {
+				wantR[fmt.Sprintf("%s/%s/%d", w.tssName(), c.Cfg.Name, s)] = true
+			}
+		}
+		gotC, gotR, gotA, pmsg := c.PacketReadback()
+		if pmsg != "" {
+			w.rec.Violate("C19", "readback", "packet_iteration_panics", "%s: iterating the packet store of %s panics: %s", when, c.Cfg.Name, pmsg)
+			continue
+		}
+		cmp := func(kind string, got, want map[string]bool) {
+			var ks []string
+			for k := range want {
+				ks = append(ks, k)
+			}
+			for k := range got {
+				if !want[k] {
+					ks = append(ks, k)
+				}
+			}
+			sortStrings(ks)
+			for _, k := range ks {
+				switch {
+				case want[k] && !got[k]:
+					w.rec.Violate("C19", "readback", kind+"_not_read_back", "%s: %s of %s is stored on %s but the keeper's iteration does not return that triple", when, kind, k, c.Cfg.Name)
+					return
+				case got[k] && !want[k]:
+					w.rec.Violate("C19", "readback", kind+"_unexpected", "%s: the keeper's iteration on %s returns a %s for %s that the history did not produce", when, c.Cfg.Name, kind, k)
+					return
+				}
+			}
+		}
+		cmp("commitment", gotC, wantC)
+		cmp("receipt", gotR, wantR)
+		cmp("ack", gotA, wantR)
+		w.rec.ProbeN("readback.packet_entries", len(gotC)+len(gotR)+len(gotA))
+	}
+}
+
 func (w *world) finish() {
+	if !w.fatal() {
+		w.packetReadback("end of run")
+	}
 	if (w.rec.Focus == "C14" || w.cfg["replicas"] == 1) && !w.fatal() {
 		w.replicas()
 	}
